@@ -157,14 +157,117 @@ pub trait Property: Sync + Send + 'static {
     fn fuzz(&self) -> Option<FuzzSpec> {
         None
     }
-    /// structured decoding of libFuzzer's bytes into a case (total: None = input ignored)
-    fn case_from_bytes(&self, _data: &[u8]) -> Option<Self::Case> {
-        None
+    /// structured decoding of libFuzzer's bytes into a case (total: None = input ignored).
+    /// Default: the bytes are the entropy stream of the property's own generator
+    /// (`case_from_entropy`), so every byte string decodes into a case of the generated domain
+    fn case_from_bytes(&self, data: &[u8]) -> Option<Self::Case>
+    where
+        Self: Sized,
+    {
+        case_from_entropy(self, data)
+    }
+    /// length of the pseudo-random continuation appended to the fuzzer's bytes (must exceed the
+    /// entropy the largest generated case draws; see `entropy_stats`)
+    fn entropy_tail(&self) -> usize {
+        1 << 14
+    }
+    /// generator whose entropy the coverage-guided stage mutates (default: the quick generator)
+    fn fuzz_strategy(&self) -> BoxedStrategy<Self::Case> {
+        self.strategy(Tier::Quick)
     }
     /// inverse of `case_from_bytes` where one exists: generated cases seed the fuzzer's corpus
     fn case_to_bytes(&self, _case: &Self::Case) -> Option<Vec<u8>> {
         None
     }
+}
+
+thread_local! {
+    static ENTROPY_STRATEGY: std::cell::RefCell<Option<Box<dyn std::any::Any>>> = const { std::cell::RefCell::new(None) };
+}
+
+/// Generic structure-aware decoding for the coverage-guided stage: the fuzzer's bytes replace the
+/// random number generator behind the property's proptest strategy (`RngAlgorithm::PassThrough`;
+/// zeros once the bytes are used up). Every byte string therefore denotes a case of exactly the
+/// domain the generated search draws from, a mutation of the bytes is a local mutation of the
+/// case, and no second hand-written decoder has to be kept in step with the generator.
+pub fn case_from_entropy<P: Property>(prop: &P, data: &[u8]) -> Option<P::Case> {
+    use proptest::test_runner::{RngAlgorithm, TestRng};
+    if data.is_empty() {
+        return None;
+    }
+    ENTROPY_STRATEGY.with(|slot| {
+        let mut slot = slot.borrow_mut();
+        let cached = slot.as_ref().map(|b| b.is::<BoxedStrategy<P::Case>>()).unwrap_or(false);
+        if !cached {
+            *slot = Some(Box::new(prop.fuzz_strategy()));
+        }
+        let strategy = slot.as_ref()?.downcast_ref::<BoxedStrategy<P::Case>>()?;
+        // The pass-through generator answers zeros once its bytes are used up, and rand's
+        // uniform-integer rejection loop never accepts an all-zero stream: the fuzzer's bytes are
+        // therefore followed by a pseudo-random tail that is a pure function of them (long enough
+        // for the largest case of the generator, `entropy_tail`). The head of the case follows the
+        // fuzzer's bytes one to one; whatever lies beyond them (and the second stage of a
+        // `prop_flat_map`, which is handed the far half of the stream) varies with their hash.
+        let tail = prop.entropy_tail();
+        let mut buf = Vec::with_capacity(data.len() + tail + 8);
+        buf.extend_from_slice(data);
+        let mut x = 0xcbf2_9ce4_8422_2325u64;
+        for b in data {
+            x = (x ^ *b as u64).wrapping_mul(0x0100_0000_01b3);
+        }
+        x |= 1;
+        while buf.len() < data.len() + tail {
+            x ^= x << 13;
+            x ^= x >> 7;
+            x ^= x << 17;
+            buf.extend_from_slice(&x.to_le_bytes());
+        }
+        let rng = TestRng::from_seed(RngAlgorithm::PassThrough, &buf);
+        let mut runner = TestRunner::new_with_rng(
+            Config { failure_persistence: None, max_local_rejects: 64, ..Config::default() },
+            rng,
+        );
+        strategy.new_tree(&mut runner).ok().map(|t| t.current())
+    })
+}
+
+/// Diagnostic (`snt-check <ID> --entropy-stats`): how many bytes of entropy the fuzz generator
+/// draws per case (measured with proptest's recording generator), to size `entropy_tail`.
+pub fn entropy_stats<P: Property>(prop: &P) -> i32 {
+    use proptest::test_runner::{RngAlgorithm, TestRng};
+    let strategy = prop.fuzz_strategy();
+    let (mut max, mut sum, n) = (0usize, 0usize, 3000usize);
+    for i in 0..n {
+        let mut seed = [0u8; 32];
+        seed[..8].copy_from_slice(&(i as u64 + 1).to_le_bytes());
+        let rng = TestRng::from_seed(RngAlgorithm::Recorder, &seed);
+        let mut runner = TestRunner::new_with_rng(Config { failure_persistence: None, ..Config::default() }, rng);
+        let _ = strategy.new_tree(&mut runner).map(|t| t.current());
+        let used = runner.bytes_used().len();
+        max = max.max(used);
+        sum += used;
+    }
+    // decoding self-test: pseudo-random byte strings must decode (and quickly)
+    let t0 = Instant::now();
+    let mut decoded = 0usize;
+    let mut x = 0x1234_5678_9abc_def1u64;
+    for i in 0..2000usize {
+        let len = 1 + (i * 37) % 3000;
+        let data: Vec<u8> = (0..len)
+            .map(|_| {
+                x ^= x << 13;
+                x ^= x >> 7;
+                x ^= x << 17;
+                (x >> 32) as u8
+            })
+            .collect();
+        if case_from_entropy(prop, &data).is_some() {
+            decoded += 1;
+        }
+    }
+    println!("{} decoded {decoded}/2000 pseudo-random entropy strings in {:.2}s", prop.id(), t0.elapsed().as_secs_f64());
+    println!("{} entropy per case: mean {} max {} bytes over {} cases; tail configured {}", prop.id(), sum / n, max, n, prop.entropy_tail());
+    0
 }
 
 /// Parameters of the coverage-guided stage
@@ -679,6 +782,27 @@ fn fuzz_stage<P: Property>(prop: &P, spec: &FuzzSpec, seed: u64) -> FuzzOutcome 
             }
         }
     }
+    if seeds.is_empty() {
+        // no byte form of generated cases (entropy-driven decoding): pseudo-random entropy
+        // strings of mixed lengths, a pure function of the seed
+        let mut x = seed.wrapping_mul(0x9e37_79b9_7f4a_7c15) ^ 0x5eed_5eed_5eed_5eed;
+        let mut next = move || {
+            x ^= x << 13;
+            x ^= x >> 7;
+            x ^= x << 17;
+            x
+        };
+        for i in 0..spec.seeds {
+            let len = match i % 4 {
+                0 => 16 + (next() as usize) % 48,
+                1 => 64 + (next() as usize) % 192,
+                2 => 256 + (next() as usize) % 768,
+                _ => spec.max_len / 2 + (next() as usize) % (spec.max_len / 2).max(1),
+            }
+            .min(spec.max_len);
+            seeds.push((0..len).map(|_| (next() >> 24) as u8).collect());
+        }
+    }
     let work = root.join("target").join("fuzz-work").join(prop.id());
     let _ = std::fs::remove_dir_all(&work);
     let mut children = Vec::new();
@@ -709,6 +833,7 @@ fn fuzz_stage<P: Property>(prop: &P, spec: &FuzzSpec, seed: u64) -> FuzzOutcome 
             .arg("-print_final_stats=1")
             .arg(format!("-artifact_prefix={}/", arts.display()))
             .env("VERIF_ROOT", &root)
+            .env("VERIF_FUZZ_ID", prop.id())
             .stdin(Stdio::null())
             .stdout(Stdio::null())
             .stderr(Stdio::from(log))
@@ -745,6 +870,11 @@ fn fuzz_stage<P: Property>(prop: &P, spec: &FuzzSpec, seed: u64) -> FuzzOutcome 
             arts.sort();
             let why = log.lines().filter(|l| l.contains("VERIF-FAIL") || l.contains("ERROR: libFuzzer") || l.contains("panicked at")).take(3).collect::<Vec<_>>().join(" | ");
             match arts.into_iter().next() {
+                // a unit that ran into libFuzzer's time or memory limit is not decoded again in
+                // this process (it could stall the harness itself): inconclusive
+                Some(a) if spec.target == "gen" && a.file_name().map(|n| { let n = n.to_string_lossy(); n.starts_with("timeout-") || n.starts_with("oom-") }).unwrap_or(false) => {
+                    return FuzzOutcome::Inconclusive(format!("fuzz job {job}: a unit hit libFuzzer's time or memory limit ({}): {why}", a.display()));
+                }
                 Some(a) => failures.push((job, a, why)),
                 None => return FuzzOutcome::Inconclusive(format!("fuzz job {job} ended with {status} without an artifact: {why}")),
             }
@@ -769,6 +899,11 @@ fn fuzz_stage<P: Property>(prop: &P, spec: &FuzzSpec, seed: u64) -> FuzzOutcome 
         "final_corpus_units": corpus_units,
         "build_s": build_s,
         "wall_s": started.elapsed().as_secs_f64(),
+        "decoding": if spec.target == "gen" {
+            "entropy-driven: the fuzzer's bytes replace the random numbers behind the property's own proptest generator (RngAlgorithm::PassThrough of the vendored proptest, followed by a pseudo-random tail derived from them), so every input is a case of the generated domain"
+        } else {
+            "hand-written byte layout (Property::case_from_bytes), seeded with generated cases (case_to_bytes)"
+        },
         "oracle": "the same Property::check as the generated search, run in-process on the case decoded from the fuzzer's bytes; a failure whose signature is not a listed known finding aborts the fuzz process",
     }))
 }
